@@ -27,7 +27,10 @@ def interpreters():
 
 
 def _norm(x):
-    return json.loads(json.dumps(x, sort_keys=True))
+    x = json.loads(json.dumps(x, sort_keys=True))
+    if isinstance(x, dict) and "exc" in x:
+        x.pop("msg", None)      # the statement asks for the same error CLASS; message texts are compared where they are output (CLI items)
+    return x
 
 
 def nonascii_answer(item):
